@@ -2,6 +2,154 @@
 Helper lemmas for C06E (integers through the text format).
 -/
 import SfsModel.Lemmas.TextValue
+import SfsModel.Lemmas.NpyDecode
 namespace Sfs
+
+/-- the body of `f64BitsOfRatNonneg` on a numerator / denominator pair. -/
+def it_core (num den : Nat) : Nat :=
+  let e0 : Int := (log2Nat num : Int) - (log2Nat den : Int)
+  let ge (e : Int) : Bool := if e ≥ 0 then num ≥ den * 2 ^ e.toNat else num * 2 ^ (-e).toNat ≥ den
+  let e : Int := if ge e0 then (if ge (e0 + 1) then e0 + 1 else e0) else e0 - 1
+  let eeff : Int := if e < -1022 then -1022 else e
+  let sh : Int := eeff - 52
+  let (n2, d2) : Nat × Nat := if sh ≥ 0 then (num, den * 2 ^ sh.toNat) else (num * 2 ^ (-sh).toNat, den)
+  let qf := n2 / d2
+  let r := n2 % d2
+  let m := if 2 * r > d2 then qf + 1 else if 2 * r < d2 then qf else (if qf % 2 = 1 then qf + 1 else qf)
+  if e < -1022 then m
+  else
+    let (m, ee) := if m = 2 ^ 53 then (2 ^ 52, eeff + 1) else (m, eeff)
+    if ee > 1023 then 2047 * 2 ^ 52
+    else ((ee + 1023).toNat) * 2 ^ 52 + (m - 2 ^ 52)
+
+theorem it_nonneg_eq (q : Rat) (hq : 0 < q) : f64BitsOfRatNonneg q = it_core q.num.natAbs q.den := by
+  unfold f64BitsOfRatNonneg it_core
+  rw [if_neg (not_le.2 hq)]
+
+theorem it_log2_one : log2Nat 1 = 0 := by decide
+
+theorem it_core_int (n : Nat) (hn : n ≠ 0) (he : Nat.log2 n ≤ 52) :
+    it_core n 1 = (1023 + Nat.log2 n) * 2 ^ 52 + (n * 2 ^ (52 - Nat.log2 n) - 2 ^ 52) := by
+  obtain ⟨l1, l2⟩ := log2_bounds n hn
+  obtain ⟨b1, b2⟩ := normalise_bounds n 52 hn he
+  unfold it_core
+  rw [it_log2_one]
+  unfold log2Nat
+  generalize Nat.log2 n = L at *
+  extract_lets e0 ge e eeff sh
+  have he0 : e0 = (L : Int) := by simp only [e0]; omega
+  have hge0 : ge e0 = true := by
+    simp only [ge, he0]
+    rw [if_pos (by omega), Int.toNat_natCast, Nat.one_mul]
+    exact decide_eq_true l1
+  have hge1 : ge (e0 + 1) = false := by
+    simp only [ge, he0]
+    rw [if_pos (by omega), show ((L : Int) + 1).toNat = L + 1 by omega, Nat.one_mul]
+    exact decide_eq_false (by omega)
+  have hee : e = (L : Int) := by simp only [e]; rw [if_pos hge0, if_neg (by rw [hge1]; decide)]; exact he0
+  have heeff : eeff = (L : Int) := by simp only [eeff, hee]; rw [if_neg (by omega)]
+  have hsh : sh = (L : Int) - 52 := by simp only [sh, heeff]
+  have hpair : (if sh ≥ 0 then (n, 1 * 2 ^ sh.toNat) else (n * 2 ^ (-sh).toNat, 1)) = (n * 2 ^ (52 - L), 1) := by
+    by_cases h52 : L = 52
+    · rw [if_pos (by omega), show sh.toNat = 0 by omega, h52]; simp
+    · rw [if_neg (by omega), show (-sh).toNat = 52 - L by omega]
+  have hnl : ¬ (e < -1022) := by omega
+  clear_value sh e ge e0
+  rw [hpair]
+  generalize n * 2 ^ (52 - L) = M at *
+  dsimp only
+  rw [if_neg hnl]
+  simp only [Nat.mod_one, Nat.div_one, Nat.mul_zero]
+  rw [if_neg (show ¬ (0 > 1) by omega), if_pos (show 0 < 1 by omega), if_neg (show ¬ M = 2 ^ 53 by omega)]
+  dsimp only
+  rw [if_neg (show ¬ eeff > 1023 by omega), show (eeff + 1023).toNat = 1023 + L by omega]
+
+theorem it_log2_le (n : Nat) (h0 : n ≠ 0) (hn : n < 2 ^ 53) : Nat.log2 n ≤ 52 := by
+  have : Nat.log2 n < 53 := (Nat.log2_lt h0).mpr hn
+  omega
+
+theorem it_nonneg_nat (n : Nat) (hn : n < 2 ^ 53) : f64BitsOfRatNonneg (n : Rat) = f64BitsOfNat false n := by
+  by_cases h0 : n = 0
+  · subst h0
+    rw [f64BitsOfRatNonneg_zero _ (by simp)]
+    simp [f64BitsOfNat]
+  · have hL := it_log2_le n h0 hn
+    have hpos : (0 : Rat) < (n : Rat) := by exact_mod_cast Nat.pos_of_ne_zero h0
+    rw [it_nonneg_eq _ hpos, Rat.num_natCast, Int.natAbs_natCast, Rat.den_natCast, it_core_int n h0 hL]
+    unfold f64BitsOfNat log2Nat
+    simp only [h0, if_false, hL, if_true, Bool.false_eq_true, Nat.zero_add]
+
+/-- a count below 2^53 has the same pattern whether converted as a rational or as an integer. -/
+theorem it_bitsOfRat_nat (n : Nat) (hn : n < 2 ^ 53) : f64BitsOfRat (n : Rat) = f64BitsOfNat false n := by
+  unfold f64BitsOfRat
+  rw [if_neg (not_lt.2 (Nat.cast_nonneg n))]
+  exact it_nonneg_nat n hn
+
+theorem it_bitsOfNat_lt (n : Nat) (hn : n < 2 ^ 53) : f64BitsOfNat false n < 2 ^ 63 := by
+  by_cases h0 : n = 0
+  · subst h0; simp [f64BitsOfNat]
+  · have hL := it_log2_le n h0 hn
+    obtain ⟨b1, b2⟩ := normalise_bounds n 52 h0 hL
+    unfold f64BitsOfNat log2Nat
+    simp only [h0, if_false, hL, if_true, Bool.false_eq_true, Nat.zero_add]
+    omega
+
+theorem it_bits_lt (n : Nat) (hn : n < 2 ^ 53) : f64BitsOfRat (n : Rat) < 2 ^ 63 := by
+  rw [it_bitsOfRat_nat n hn]; exact it_bitsOfNat_lt n hn
+
+theorem it_sign (n : Nat) (hn : n < 2 ^ 53) : f64Sign (f64BitsOfRat (n : Rat)) = false := by
+  have := it_bits_lt n hn
+  unfold f64Sign
+  rw [Nat.div_eq_of_lt this]
+  rfl
+
+theorem it_value (n : Nat) (hn : n < 2 ^ 53) : f64OfBits (f64BitsOfRat (n : Rat)) = .fin (n : Rat) := by
+  rw [it_bitsOfRat_nat n hn]
+  exact f64OfBits_ofNat_unsigned n (by omega)
+
+theorem it_roundHE_one (m : Nat) : roundHE m 1 = m := by
+  unfold roundHE
+  simp only [Nat.mod_one, Nat.div_one, Nat.mul_zero]
+  rw [if_neg (show ¬ (0 > 1) by omega), if_pos (show 0 < 1 by omega)]
+
+theorem it_absRat_nat (n : Nat) : absRat (n : Rat) = (n : Rat) := absRat_of_nonneg _ (Nat.cast_nonneg n)
+
+theorem it_prints (n : Nat) (hn : n < 2 ^ 53) : fmtFixed (f64BitsOfRat (n : Rat)) 0 = Nat.toDigits 10 n := by
+  rw [fmtFixed_fin _ 0 _ (it_value n hn), it_sign n hn, it_absRat_nat, fmtRatFixed_eq, Rat.num_natCast,
+    Int.natAbs_natCast, Rat.den_natCast, Nat.pow_zero, Nat.mul_one, it_roundHE_one]
+  simp [fmtScaled]
+
+theorem it_roundtrip (n : Nat) (hn : n < 2 ^ 53) :
+    parseF64 (fmtFixed (f64BitsOfRat (n : Rat)) 0) = some (f64BitsOfRat (n : Rat)) := by
+  rw [parseF64_fmtFixed_fin _ 0 _ (it_value n hn), it_sign n hn, it_absRat_nat, Rat.num_natCast,
+    Int.natAbs_natCast, Rat.den_natCast, Nat.pow_zero, Nat.mul_one, it_roundHE_one, Nat.cast_one, div_one]
+  simp only [Bool.false_eq_true, if_false, Nat.zero_add]
+  congr 1
+  unfold f64BitsOfRat
+  rw [if_neg (not_lt.2 (Nat.cast_nonneg n))]
+
+theorem it_map_some_inj {α} (l1 l2 : List α) (h : l1.map some = l2.map some) : l1 = l2 := by
+  induction l1 generalizing l2 with
+  | nil => cases l2 with
+    | nil => rfl
+    | cons _ _ => cases h
+  | cons a r ih => cases l2 with
+    | nil => cases h
+    | cons b r2 =>
+      simp only [List.map_cons, List.cons.injEq, Option.some.injEq] at h
+      rw [h.1, ih r2 h.2]
+
+/-- `counts.map (fun c => g (c : Rat))` with an unannotated binder elaborates to a map over the list coerced through the
+    `List` monad; this is the plain map over the casts. -/
+theorem it_coe (counts : List Nat) :
+    (counts >>= fun (a : Nat) => (pure (a : Rat) : List Rat)) = List.map (fun (a : Nat) => (a : Rat)) counts := by
+  induction counts with
+  | nil => rfl
+  | cons a r ih => simpa using ih
+
+theorem it_map_coe (counts : List Nat) (f : Rat → Nat) :
+    List.map f (counts >>= fun (a : Nat) => (pure (a : Rat) : List Rat)) =
+      List.map (fun (a : Nat) => f (a : Rat)) counts := by
+  rw [it_coe, List.map_map]; rfl
 
 end Sfs
